@@ -184,6 +184,8 @@ package dns
 //@   ensures empty: len(s) == 0 ==> len(ret0) == 1 && ret0[0] == '@'
 // "This function will never return "", but returns "@" instead": the apex under the root origin included
 //@   exit never: !called("IsSubDomain") ==> len(ret0) > 0
+// under the root origin at most the one terminating dot is removed (an escaped dot before it belongs to the name)
+//@   assert at "return t" rootdot: issub(t, s) && start(t, s) == 0 && len(t) >= len(s) - 1 && (len(t) == len(s) - 1 ==> s[len(s)-1] == '.')
 //@   callsite "IsSubDomain" order: arg0 == origin && arg1 == s
 //@   callsite "CompareDomainName" both: arg0 == s && arg1 == origin
 //@   callsite "Split" which: arg0 == s || arg0 == origin
